@@ -498,6 +498,7 @@ def r4(ctx):
         ctx.check(not missing, "C03.R4", path, "covers-all-fields", "fields %s, read %s" % (fields, sorted(read)), b.sp)
         appends = [t for _, t in b.calls() if t["f"].get("name") in ("extend_from_slice", "encode", "push", "extend", "put_slice")]
         ctx.check(len(appends) >= len(fields), "C03.R4", path, "appends>=fields", "%d append/encode calls for %d fields" % (len(appends), len(fields)), b.sp)
+    canonical_layout(ctx, "C03.R4")
     tv = f.body("sync::Entry::to_vec")
     ctx.touch(tv)
     ctx.check(any(callee_matches(t, r"sync::Entry::encode$") for _, t in tv.calls()), "C03.R4", tv.path, "to_vec-uses-encode", "to_vec = encode into a fresh Vec", tv.sp)
@@ -505,7 +506,42 @@ def r4(ctx):
     fe = f.body("sync::EntrySignature::from_entry")
     ctx.touch(fe)
     ctx.check(any(callee_matches(t, r"sync::Entry::to_vec$") for _, t in fe.calls()), "C03.R4", fe.path, "signs-canonical-bytes", "signatures are produced over entry.to_vec()", fe.sp)
-    ctx.floor("C03.R4", 8)
+    ctx.floor("C03.R4", 9)
+
+
+def canonical_layout(ctx, rule):
+    """the pinned canonical bytes of an entry - what every released peer signs and verifies: identifier bytes (namespace, author,
+    key), then the record as big-endian length, content hash, big-endian timestamp. Entry::encode evaluated (K6') with the
+    fields as tokens: the pieces appended to the output, in order, with their byte order"""
+    from . import feval as E, coll
+    f = ctx.facts
+    b = f.body("sync::Entry::encode")
+    C = coll.Collections(f)
+    pieces = []
+
+    def oracle(kind, name, payload, site):
+        if kind != "call":
+            return None
+        t, args, it = payload
+        names = [it.tokname(a).strip("&*") for a in args]
+        if name in ("to_be_bytes", "to_le_bytes", "to_ne_bytes") and len(args) == 1:
+            return E.Tok("%s(%s)" % (name[3:5], names[0]))
+        if name in ("as_ref", "as_bytes", "as_slice", "deref", "borrow") and len(args) == 1:
+            return args[0]
+        if name in ("extend_from_slice", "extend", "put_slice", "push", "put") and len(args) == 2 and names[0] == "out":
+            pieces.append(names[1])
+            return E.UNIT
+        return C.handle(kind, name, payload, site)
+    rec = E.struct(f, "sync::Record", len=E.Tok("len"), hash=E.Tok("hash"), timestamp=E.Tok("timestamp"))
+    rid = E.struct(f, "sync::RecordIdentifier", **{"0": E.Tok("id-bytes")})
+    heap = {"entry": E.struct(f, "sync::Entry", id=rid, record=rec), "out": E.Tok("out")}
+    try:
+        E.run_it(f, b.path, [E.href("entry"), E.href("out")], heap, oracle)
+        got = pieces
+    except E.Unsupported as e:
+        got = ["UNSUPPORTED-FORM: %s" % e]
+    want = ["id-bytes", "be(len)", "hash", "be(timestamp)"]
+    ctx.check(got == want, rule, b.path, "pinned-canonical-layout", "pieces appended: %s; pinned format: %s (an entry signed by a released peer verifies only over these bytes)" % (got, want), b.sp)
 
 
 def r5(ctx):
@@ -673,6 +709,13 @@ def r10(ctx):
     ctx.floor("C03.R10", 11)
 
 
+def r11(ctx):
+    """"its namespace is the replica's": the namespace remote entries are compared with is the id of the replica's capability -
+    which a merge never changes (a capability of another document is refused before anything is replaced): the merge table of
+    C07.R1"""
+    from . import C07
+    ctx.share("C03.R11", C07.r1, "C07.R1", floor=1)
+
 def run(ctx):
     ctx.run_rule("C03.R1", r1)
     ctx.run_rule("C03.R2", r2)
@@ -684,3 +727,4 @@ def run(ctx):
     ctx.run_rule("C03.R8", r8)
     ctx.run_rule("C03.R9", r9)
     ctx.run_rule("C03.R10", r10)
+    ctx.run_rule("C03.R11", r11)
